@@ -6,7 +6,8 @@
    with the destination holding the nodes d0.  Quantifying over tr quantifies over every
    interleaving of the visible events of every schedule. *)
 From Oras Require Import Base.Prelude Generated.GC01 Model.CopySpec Model.CopyTop Model.CopyOpt
-  Proofs.CopySpec Proofs.CopyAcct Proofs.CopyOpt.
+  Model.CopyCancel Model.CopyLinks Proofs.CopySpec Proofs.CopyAcct Proofs.CopyOpt Proofs.CopyCancel
+  Proofs.CopyLinks Proofs.CopyCode.
 Local Open Scope nat_scope.
 
 (* Success => every node reachable from the root (foreign layers cut) is in the
@@ -196,3 +197,199 @@ Example C01_examples_refpusher_mount_tworoots :
                 [ExB 3; ExE 3 true; Cb CSkip 3; ExB 2; ExE 2 true; Cb CSkip 2; Ret true] = Some st /\
               returned st = Some true).
 Proof. exact example_runs_more. Qed.
+
+(* ---- the caller's context ends during (or before) the call (Model/CopyCancel.v) ----
+   [caccepts_opt cs g c d0 tr = Some (s, full)]: tr is a recorded run with [Cancel] marks where
+   the harness ended the context; after a Cancel an error return is accepted in any state
+   (abandoned tasks), a SUCCESSFUL return still needs the root Done and nothing in progress --
+   the content of syncutil.Go's final "return context.Cause(ctx)".  So success means closure
+   and tag whatever cancellation did, and success without any event on the root is impossible
+   (the run "context ended before the root task started, yet nil" is not a run). *)
+Theorem C01_closure_under_cancellation :
+  forall (cs : cbset) (g : graph) (c : cfg) (d0 : list node) (tr : list cevent) (s : cstate)
+         (full : list event),
+    closed_nodes g d0 -> mt_consistent g ->
+    caccepts_opt cs g c d0 tr = Some (s, full) -> returned (cs_st s) = Some true ->
+    forall n, reach g (c_root c) n -> has g (dst (cs_st s)) n = true.
+Proof. exact closure_under_cancellation. Qed.
+Print Assumptions C01_closure_under_cancellation.
+
+Theorem C01_tagged_under_cancellation :
+  forall (cs : cbset) (g : graph) (c : cfg) (d0 : list node) (tr : list cevent) (s : cstate)
+         (full : list event),
+    caccepts_opt cs g c d0 tr = Some (s, full) -> returned (cs_st s) = Some true ->
+    c_mode c <> MGraph -> tag_ok g c = true -> tag (cs_st s) = Some (c_root c).
+Proof. exact tagged_under_cancellation. Qed.
+Print Assumptions C01_tagged_under_cancellation.
+
+Theorem C01_no_success_without_work :
+  forall (cs : cbset) (g : graph) (c : cfg) (d0 : list node) (tr : list cevent) (s : cstate)
+         (full : list event),
+    caccepts_opt cs g c d0 tr = Some (s, full) -> returned (cs_st s) = Some true ->
+    exists e, In (Ev e) tr /\ ev_node e = Some (c_root c).
+Proof. exact no_success_without_work. Qed.
+Print Assumptions C01_no_success_without_work.
+
+(* satisfiable: an already-ended context gives an error return with no event at all; a context
+   that ends after the work is done does not prevent success *)
+Example C01_examples_cancellation :
+  (exists s, caccepts_opt all_set g_ex c_ex [1] [Cancel; Ev (Ret false)] = Some (s, []) /\
+             returned (cs_st s) = Some false) /\
+  (exists s full, caccepts_opt (fun _ => false) g_ex c_ex [0; 1; 2; 3]
+                    [Ev (ExB 3); Ev (ExE 3 true); Ev (TagB 3); Cancel; Ev (TagE 3); Ev (Ret true)] = Some (s, full) /\
+                  returned (cs_st s) = Some true /\ tag (cs_st s) = Some 3).
+Proof. exact examples_cancellation. Qed.
+
+(* ---- the links (Model/CopyLinks.v) ----
+   The successor function is no longer only a parameter: [successors] applies the link schema
+   that tools/gosrc2v regenerates from the five cases of content.Successors (successors_schema)
+   to a manifest's decoded fields; [linked] is the property's own link relation ("config,
+   layer, blob, manifest-list and subject links", per media type as the OCI / Docker
+   specifications define them).  The two coincide, for every media type and every field
+   contents; an edit to content.Successors that drops, adds or conditions a link breaks the
+   translation or this theorem. *)
+Theorem C01_link_schema_is_spec :
+  forall (f : mfields) (x : node), linked f x <-> In x (successors f).
+Proof. exact schema_is_spec. Qed.
+Print Assumptions C01_link_schema_is_spec.
+
+(* descriptor.IsManifest (what copyGraph reads through the caching proxy) names exactly the media
+   types that content.Successors decodes; none of them is a foreign layer type *)
+Theorem C01_manifest_types_have_schema :
+  forall mt, is_manifest_mt mt = true <-> lookup_schema successors_schema mt <> None.
+Proof. exact schema_labels_are_manifests. Qed.
+Print Assumptions C01_manifest_types_have_schema.
+
+Theorem C01_manifest_not_foreign :
+  forall mt, is_manifest_mt mt = true -> is_foreign_mt mt = false.
+Proof. exact manifest_not_foreign. Qed.
+Print Assumptions C01_manifest_not_foreign.
+
+(* closure stated over the property's links, with the content universe built from the nodes'
+   fields by the generated tables (successors, IsManifest, IsForeignLayer): success => every node
+   reachable through config / layer / blob / manifest-list / subject links, foreign layers cut, is
+   in the destination *)
+Theorem C01_closure_over_links :
+  forall (n : nat) (flds : node -> mfields) (dkey : node -> nat) (c : cfg) (d0 : list node)
+         (tr : list event) (st : state),
+    closed_nodes (graph_of n flds dkey) d0 -> mt_consistent (graph_of n flds dkey) ->
+    accepts (graph_of n flds dkey) c d0 tr = Some st -> returned st = Some true ->
+    forall x, lreach flds (c_root c) x -> has (graph_of n flds dkey) (dst st) x = true.
+Proof. exact closure_links. Qed.
+Print Assumptions C01_closure_over_links.
+
+(* Copy end to end in the model: the root is what the prologue computes (resolve, MapRoot, platform
+   selection = first matching entry); a successful run replicates that root's graph and the
+   effective destination reference resolves to it *)
+Theorem C01_copy_top :
+  forall (g : graph) (opt : Z) (refpusher mount : bool) (cached0 d0 : list node)
+         (tags0 : str -> option node) (srcRef dstRef : str)
+         (resolved : option node) (user_map : option (node -> option node)) (platform : option plat)
+         (entries_of : node -> option (list (node * option plat))) (root : node) tr st,
+    copy_root resolved user_map platform entries_of = Some root ->
+    closed_nodes g d0 -> mt_consistent g ->
+    accepts g (copy_cfg defaultConcurrency opt refpusher mount root cached0) d0 tr = Some st ->
+    returned st = Some true ->
+    tags_after tags0 (eff_ref srcRef dstRef) st (eff_ref srcRef dstRef) = Some root /\
+    (forall n, reach g root n -> has g (dst st) n = true).
+Proof. exact (fun g => copy_top_lemma g defaultConcurrency). Qed.
+Print Assumptions C01_copy_top.
+
+Theorem C01_copy_root_is_platform_selection :
+  forall resolved platform_want entries_of r es root,
+    resolved = Some r -> entries_of r = Some es ->
+    copy_root resolved None (Some platform_want) entries_of = Some root ->
+    select_manifest es platform_want = Some root.
+Proof. exact copy_root_platform. Qed.
+Print Assumptions C01_copy_root_is_platform_selection.
+
+(* the order of effects the model assumes, as facts about the call sequences regenerated from
+   copy.go / syncutil (layer T): in particular syncutil.Go ends with `return context.Cause(ctx)` *)
+Theorem C01_code_order_syncutil_go :
+  calls_syncutilGo =
+  [b "cancel"; b "region.Start"; b "cancel"; b "eg.Go"; b "lr.End"; b "fn"; b "cancel"; b "eg.Wait";
+   b "cancel"; b "context.Cause"] /\
+  go_final_return = ["context.Cause(ctx)"%string].
+Proof. exact order_syncutilGo. Qed.
+Print Assumptions C01_code_order_syncutil_go.
+
+Theorem C01_code_order_copy :
+  calls_Copy = [b "resolveRoot"; b "opts.MapRoot"; b "prepareCopy"; b "copyGraph"] /\
+  calls_copyNode = [b "opts.PreCopy"; b "doCopyNode"; b "opts.PostCopy"] /\
+  calls_doCopyNode = [b "src.Fetch"; b "rc.Close"; b "dst.Push"].
+Proof. exact (conj order_Copy (conj order_copyNode order_doCopyNode)). Qed.
+Print Assumptions C01_code_order_copy.
+
+(* Copy's prologue in the model (CopyTop.prologue_fetches / cache_after_resolve, compared with the
+   wrappers' prologue observations on every Copy case): it reads only the resolved root, the mapped
+   root and -- for a target platform on an image manifest -- that manifest's config blob *)
+Theorem C01_prologue_reads :
+  forall reffetch root0 mapped pt cache x,
+    In x (prologue_fetches reffetch root0 mapped pt cache) ->
+    x = root0 \/ x = mapped \/ (exists ok, pt = PTImage x ok).
+Proof. exact prologue_fetches_nodes. Qed.
+Print Assumptions C01_prologue_reads.
+
+(* ExtendedCopyGraph's walk from several roots (c_root :: c_xroots share tracker, proxy, limiter):
+   success => the graph of EVERY root is in the destination *)
+Theorem C01_closure_all_roots :
+  forall (g : graph) (c : cfg) (d0 : list node) (tr : list event) (st : state),
+    closed_nodes g d0 -> mt_consistent g ->
+    accepts g c d0 tr = Some st -> returned st = Some true ->
+    forall r n, In r (c_root c :: c_xroots c) -> reach g r n -> has g (dst st) n = true.
+Proof. exact closure_all_roots. Qed.
+Print Assumptions C01_closure_all_roots.
+
+(* removeForeignLayers, modelled as the code writes it (in-place compaction with a read and a write
+   index; run against the real function on every generated successor list), is the filter that the
+   transition system's [succ'] uses -- so "foreign layers excepted" is exactly IsForeignLayer's table *)
+Theorem C01_remove_foreign_layers :
+  forall (foreign : node -> bool) (descs : list node),
+    remove_foreign_inplace foreign descs = filter (fun x => negb (foreign x)) descs.
+Proof. exact remove_foreign_inplace_is_filter. Qed.
+Print Assumptions C01_remove_foreign_layers.
+
+Theorem C01_succ_is_remove_foreign :
+  forall (g : graph) (n : node), succ' g n = remove_foreign_inplace (g_foreign g) (g_succ g n).
+Proof. exact succ'_is_remove_foreign. Qed.
+Print Assumptions C01_succ_is_remove_foreign.
+
+(* "every goroutine interleaving": for mt_consistent graphs the content of the destination after a
+   successful Copy / CopyGraph does not depend on the interleaving at all ... *)
+Theorem C01_outcome_schedule_independent :
+  forall (g : graph) (c : cfg) (d0 : list node) (rank : node -> nat) (tr1 tr2 : list event)
+         (st1 st2 : state),
+    (forall n x, In x (succ' g n) -> rank x < rank n) ->
+    c_xroots c = [] -> closed_nodes g d0 -> mt_consistent g ->
+    accepts g c d0 tr1 = Some st1 -> returned st1 = Some true ->
+    accepts g c d0 tr2 = Some st2 -> returned st2 = Some true ->
+    forall n, has g (dst st1) n = has g (dst st2) n.
+Proof. exact outcome_schedule_independent. Qed.
+Print Assumptions C01_outcome_schedule_independent.
+
+(* ... whereas for the graph of the known finding twin-digest-exists two schedules of the same copy
+   into the same EMPTY digest-keyed destination both succeed and end differently *)
+Theorem C01_outcome_schedule_dependent_refuted_without_mt_consistency :
+  exists g c (rank : node -> nat) tr1 tr2 st1 st2 n,
+    (forall m x, In x (succ' g m) -> rank x < rank m) /\ c_xroots c = [] /\ closed_nodes g [] /\
+    accepts g c [] tr1 = Some st1 /\ returned st1 = Some true /\
+    accepts g c [] tr2 = Some st2 /\ returned st2 = Some true /\
+    has g (dst st1) n <> has g (dst st2) n.
+Proof. exact outcome_schedule_dependent_without_mt_consistency. Qed.
+Print Assumptions C01_outcome_schedule_dependent_refuted_without_mt_consistency.
+
+Theorem C01_code_blank_reference_and_proxy :
+  copy_blank_dstref_rule = ["dstRef == ''"%string; "dstRef = srcRef"%string] /\
+  calls_proxyFetch = [b "p.FetchCached"; b "p.Cache.Fetch"; b "p.ReadOnlyStorage.Fetch"; b "p.Cache.Push"] /\
+  calls_proxyFetchCached = [b "p.Cache.Exists"; b "p.Cache.Fetch"; b "p.ReadOnlyStorage.Fetch"].
+Proof. exact (conj rule_blank_dstref order_proxy). Qed.
+Print Assumptions C01_code_blank_reference_and_proxy.
+
+(* WithTargetPlatform on an image-manifest root (compared with the implementation on every such case):
+   the root is kept iff its config has the image-config media type and the platform decoded from the
+   config blob matches; anything that is neither a manifest list nor an image manifest is refused *)
+Theorem C01_platform_on_image :
+  forall r ok p want x,
+    select_target r (PVImage ok p) want = Some x <-> x = r /\ ok = true /\ plat_match p want = true.
+Proof. exact select_target_image. Qed.
+Print Assumptions C01_platform_on_image.
